@@ -17,6 +17,7 @@ trusted models of external code, proof functions and harnesses, never a re-typed
        [loop <k>: <clauses...>]           invariant/decreases text for the k-th loop (source order)
        [proof <anchor-regex>: <text>]     ghost text inserted *before* the first body line matching the regex
        [nosig]                            emit only `{ body }` (the template writes the signature)
+       [plain]                            plain Rust output (Kani units): the return value is not named
      @*/
        <requires/ensures/decreases clauses in Verus syntax>
      /*@end*/
@@ -328,6 +329,10 @@ def extract_fn(repo, header, contract, ex, body_only=False):
             opts['break_to_return'] = True
             cur = None
             continue
+        if l == 'plain':
+            opts['plain'] = True
+            cur = None
+            continue
         if l == 'nosig':
             opts['nosig'] = True
             cur = None
@@ -383,7 +388,9 @@ def extract_fn(repo, header, contract, ex, body_only=False):
     if opts['self_ty']:
         body2 = re.sub(r'\bSelf\b', opts['self_ty'], body2)
     sig = head
-    if ret:
+    if ret and opts.get('plain'):
+        sig += f' -> {ret}'
+    elif ret:
         sig += f' -> ({opts["ret"]}: {ret})'
     if where:
         sig += '\n' + where
